@@ -15,7 +15,8 @@ EXPLANATION = (
     'effect or request is dropped except the serialised batch; R09.d in every generated `impl Effect` (derive and attribute macro, '
     'expanded from the current tree in the probe crate) arm i of serialize passes the constructor of the same-named Ffi variant, and '
     'From<Request<Op>> builds the variant whose payload is Op; R09.e a registry entry changes state only when a one-shot is consumed — a stream '
-    'entry never does, so its id stays bound while it can be resolved. Byte-level equality with the typed core for every history is not decided '
+    'entry never does, so its id stays bound while it can be resolved, and nothing but a resolver\'s own resolve() overwrites its arity state (no placeholder '
+    'is swapped into the registry). Byte-level equality with the typed core for every history is not decided '
     '(C02 R02.b and C10 R10.d cover arity and codec).')
 
 
